@@ -33,6 +33,10 @@ def run(ctx):
     vlib.mc_check(ctx, "ManagedProto", "ManagedProto_negF50.cfg", expect_violation="NoUnmanagedFile", timeout=120, workers=2)
     vlib.mc_check(ctx, "ManagedProto", "ManagedProto_negF50b.cfg", expect_violation="NoUnmanagedFile", timeout=120, workers=2)
     vlib.mc_check(ctx, "ManagedProto", "ManagedProto_negS22.cfg", expect_violation="NoUnmanagedFile", timeout=120, workers=2)
+    if not ctx.quick:
+        # three instances, six files, two zombie registrations per writer generation (about a million states)
+        vlib.mc_check(ctx, "ManagedProto", "ManagedProto_deep.cfg", timeout=600, workers=4)
+        vlib.mc_check(ctx, "ManagedProto", "ManagedProto_deep_negF50.cfg", expect_violation="NoUnmanagedFile", timeout=120, workers=2)
     vlib.mc_check(ctx, "MC_Storage", "MC_Storage.cfg", timeout=120, workers=2)
     vlib.mc_check(ctx, "MC_Storage", "MC_Storage_negF4.cfg", expect_violation="CrashNoOrphan", timeout=120, workers=2)
     # interleaved builder / updater / GC: GcTight, NeverDeletesNeeded, NeverDeletesBuilding, OrphanIsF4Class
